@@ -47,6 +47,9 @@ type eopt struct {
 	// a second rendering that is just as good (RDNSS: the wildcard's pick is
 	// also a configured server - listed once or twice, the property does not say)
 	altFixed string
+	// the stanza this option was expanded from ("prefix#0", "route#1"): options
+	// of one stanza in one RA share that stanza's lifetimes
+	stanza string
 }
 
 func (o eopt) String() string {
@@ -466,6 +469,7 @@ func expectRA(in modelIn) *modelOut {
 				q := m.field(fmt.Sprintf("prefix[%d].preferred_lifetime", i), pref, max32)
 				e.lo, e.hi = []int64{v, q}, []int64{v, q}
 			}
+			e.stanza = fmt.Sprintf("prefix#%d", i)
 			m.opts = append(m.opts, e)
 		}
 	}
@@ -512,6 +516,7 @@ func expectRA(in modelIn) *modelOut {
 				v := m.field(fmt.Sprintf("route[%d].lifetime", i), lt, max32)
 				e.lo, e.hi = []int64{v}, []int64{v}
 			}
+			e.stanza = fmt.Sprintf("route#%d", i)
 			m.opts = append(m.opts, e)
 		}
 	}
